@@ -78,6 +78,14 @@ Fixpoint sort_by_id (t : table V) : table V :=
   match t with [] => [] | x :: r => insert_by_id x (sort_by_id r) end.
 End Select.
 
+(* np.unique / np.intersect1d order: ascending, duplicates removed *)
+Fixpoint insertZ (x : Z) (l : list Z) : list Z :=
+  match l with
+  | [] => [x]
+  | y :: r => if Z.ltb x y then x :: l else if Z.eqb x y then l else y :: insertZ x r
+  end.
+Definition uniqueZ (l : list Z) : list Z := fold_right insertZ [] l.
+
 Fixpoint sortedZ (l : list Z) : bool :=
   match l with
   | [] => true
@@ -431,3 +439,43 @@ Proof.
       eapply Forall_impl; [|eassumption]. intros; lia.
     + intros S. inversion S; subst. inversion H2; subst. auto.
 Qed.
+
+(* ------------------------------------------------------------ np.unique *)
+Lemma insertZ_In x y l : In y (insertZ x l) <-> y = x \/ In y l.
+Proof.
+  induction l as [|z r IH]; simpl; [intuition|].
+  destruct (Z.ltb_spec x z); simpl; [intuition|].
+  destruct (Z.eqb_spec x z); simpl.
+  - subst. intuition.
+  - rewrite IH. intuition.
+Qed.
+
+Lemma uniqueZ_In x l : In x (uniqueZ l) <-> In x l.
+Proof.
+  unfold uniqueZ. induction l as [|y r IH]; simpl; [tauto|].
+  rewrite insertZ_In, IH. intuition.
+Qed.
+
+Lemma insertZ_sorted x l : StronglySorted Z.lt l -> StronglySorted Z.lt (insertZ x l).
+Proof.
+  induction 1 as [|y r S IH F]; simpl; [repeat constructor|].
+  destruct (Z.ltb_spec x y).
+  - constructor; [constructor; auto|]. constructor; auto.
+    eapply Forall_impl; [|exact F]. intros; lia.
+  - destruct (Z.eqb_spec x y); [constructor; auto|].
+    constructor; auto. rewrite Forall_forall in *. intros z Hz.
+    apply insertZ_In in Hz. destruct Hz as [->|Hz]; [lia|auto].
+Qed.
+
+Lemma uniqueZ_sorted l : StronglySorted Z.lt (uniqueZ l).
+Proof. unfold uniqueZ. induction l; simpl; [constructor|apply insertZ_sorted; auto]. Qed.
+
+Lemma sorted_lt_NoDup l : StronglySorted Z.lt l -> NoDup l.
+Proof.
+  induction 1 as [|x r S IH F]; constructor; auto.
+  intros Hin. rewrite Forall_forall in F. specialize (F x Hin). lia.
+Qed.
+
+Lemma uniqueZ_NoDup l : NoDup (uniqueZ l).
+Proof. apply sorted_lt_NoDup, uniqueZ_sorted. Qed.
+
